@@ -153,11 +153,11 @@ func zero(t types.Type) value {
 }
 
 type chanV struct {
-	ctx    *ctxObj // set for a context's Done channel
-	zeroSize bool  // element type has size zero (semaphore)
-	cap    int
-	buf    []value
-	closed bool
+	ctx      *ctxObj // set for a context's Done channel
+	zeroSize bool    // element type has size zero (semaphore)
+	cap      int
+	buf      []value
+	closed   bool
 }
 
 func copyVal(v value) value {
